@@ -47,7 +47,7 @@ pub fn pick_sampling(rng: &mut Rng) -> (String, Sampling) {
 
 pub fn small_game(rng: &mut Rng) -> (String, crate::tree::HNode) {
     if rng.chance(0.2) {
-        let w = *rng.pick(&[0usize, 1, 2, 3, 4, 6, 8, 9, 10]);
+        let w = *rng.pick(&[0usize, 1, 2, 3, 4, 6, 8, 9, 10, 18]);
         let (d, t) = gen::structured(rng, w);
         if t.count_nodes() <= 400 {
             return (d, t);
